@@ -1122,4 +1122,48 @@ theorem norm_norm (v : JValue) : norm (norm v) = norm v := by
     congr 2
     exact List.map_congr_left fun p hp => by simp [ih p hp]
 
+/-! ### the canonical form is well-formed -/
+
+theorem insertKey_perm {α} (p : Str × α) (l : List (Str × α)) : (insertKey p l).Perm (p :: l) := by
+  induction l with
+  | nil => exact List.Perm.refl _
+  | cons q qs ih =>
+    simp only [insertKey]
+    split
+    · exact ((List.Perm.cons q ih).trans (List.Perm.swap p q qs))
+    · exact List.Perm.refl _
+
+theorem sortKeys_perm {α} (l : List (Str × α)) : (sortKeys l).Perm l := by
+  induction l with
+  | nil => exact List.Perm.refl _
+  | cons p ps ih => exact (insertKey_perm p _).trans (List.Perm.cons p ih)
+
+/-- the canonical form of a well-formed value is well-formed: in particular the decoded object keys are unique, so the
+member list *is* a dictionary -/
+theorem wf_norm (v : JValue) : WF v → WF (norm v) := by
+  induction v using valInd with
+  | hnull => intro _; simp [norm, WF]
+  | hbool b => intro _; simp [norm, WF]
+  | hnum n => intro h; cases n <;> simp_all [norm, WF, normNum]
+  | hstr s => intro _; simp [norm, WF]
+  | harr xs ih =>
+    intro h
+    have hw := (wfList_iff _).mp (by simpa [WF] using h)
+    simp only [norm, WF, normList_eq, wfList_iff]
+    intro x hx
+    obtain ⟨y, hy, rfl⟩ := List.mem_map.mp hx
+    exact ih y hy (hw y hy)
+  | hobj kvs ih =>
+    intro h
+    simp only [WF] at h
+    have hw := (wfMembers_iff _).mp h.2
+    simp only [norm, WF, normMembers_eq, wfMembers_iff]
+    refine ⟨?_, ?_⟩
+    · have hp := (sortKeys_perm (kvs.map fun p => (p.1, norm p.2))).map Prod.fst
+      rw [hp.nodup_iff]
+      simpa [List.map_map, Function.comp_def] using h.1
+    · intro p hp
+      obtain ⟨q, hq, rfl⟩ := List.mem_map.mp ((mem_sortKeys p _).mp hp)
+      exact ih q hq (hw q hq)
+
 end C14
